@@ -144,3 +144,9 @@ def obligations(ctx, cfg):
             ParserWrapper(ctx, 'parse_subscription_name', 29 if q else 37),
             ParserWrapper(ctx, 'parse_project_id', cap),
             StreamingControl(ctx)]
+
+
+def kani_harnesses(cfg):
+    q = cfg['tier'] == 'quick'
+    hs = [{'id': 'K2-ack-id-parse', 'harness': 'k2_ack_id_parse_matches_reference', 'quick': True, 'desc': 'real core::str::parse::<u64> via AckId::parse on every byte string <= 4 bytes: no panic, result == the decimal reference used by the string model'}]
+    return [h for h in hs if not q or h.get('quick')]
